@@ -386,6 +386,21 @@ func tokenValueTags(p *Program, fn *ssa.Function, v ssa.Value, at ssa.Instructio
 			if sf, ok := fieldOfAddr(l.X); ok && sf.Is("Parser", "previous") {
 				return previousTokenTags(p, fn, l)
 			}
+			// *p.current read before the parselet's first cursor move: the token the parselet was
+			// chosen for
+			if sf, ok := fieldOfAddr(l.X); ok && sf.Is("Parser", "current") && beforeAnyCursorMove(fn, l) {
+				m := extractPratt(p)
+				var tags []string
+				for _, r := range m.Rows {
+					if r.Prefix == fn || r.Infix == fn {
+						tags = append(tags, r.Tag)
+					}
+				}
+				sort.Strings(tags)
+				if len(tags) > 0 {
+					return tags, "current token on entry of the parselet registered for {" + strings.Join(tags, ", ") + "}", true
+				}
+			}
 		}
 	}
 	return nil, "token value " + p.RenderShort(v) + " has no recognised provenance", false
@@ -719,4 +734,20 @@ func coAssignment(p *Program, fn *ssa.Function, b *ssa.BasicBlock) (string, bool
 		return "co-assignment: " + strings.Join(bad, "; "), false, true
 	}
 	return fmt.Sprintf("co-assignment: each of the %d stores of a non-nil Value.ParentObj is preceded on every path by a store of Str or Num to the same value, so a value with a parent always has a key", n), true, true
+}
+
+// beforeAnyCursorMove: no call of fn that passes the parser on can execute before instruction ld.
+func beforeAnyCursorMove(fn *ssa.Function, ld ssa.Instruction) bool {
+	for _, call := range callsIn(fn) {
+		passes := false
+		for _, a := range call.Common().Args {
+			if pt, ok := a.Type().(*types.Pointer); ok && isLangNamed(pt.Elem(), "Parser") {
+				passes = true
+			}
+		}
+		if passes && (dominatesInstr(call, ld) || canReach(call, ld)) {
+			return false
+		}
+	}
+	return true
 }
